@@ -249,6 +249,60 @@ def extra_scripts(seed, unb):
     return out
 
 
+NORACLE = int(os.environ.get("VERIF_CHAIN_ORACLE_RUNS", "12"))   # independent executions of the cheap oracle-only scripts
+
+
+def oracle_scripts(seed, tier):
+    """oracle-only stress scripts (strict off, no prologue): 8 token feeders in 4 pairs with staggered windows (pair p is based on
+    start+p, interval 6, window 3 blocks), validators submit messages that mostly never reach a price, so that every EndBlock
+    seals >= 2 rounds out of window (collected by ranging over the agc.rounds Go MAP) while >= 2 other feeders still hold nonce
+    entries.  A dependence on that iteration order shows with probability ~1/8 per sealing event and execution, therefore these
+    short scripts are executed by NORACLE independent processes."""
+    out = []
+    for v in range(2 if tier == "quick" else 6):
+        rng = random.Random(seed * 101 + v)
+        cfg = base_cfg(1)
+        cfg.update({"oracleStart": 2 + v, "oracleInterval": 6, "extraFeeders": 5, "oracleStagger": 1})
+        nfeed, iv, vals = 8, 6, ["k1", "k2", "k3"]
+        plans, blocks = {}, []
+        for h in range(1, 19):
+            txs = []
+            for f in range(1, nfeed + 1):
+                st = cfg["oracleStart"] + ((f - 1) // 2) * cfg["oracleStagger"]
+                if h - 1 < st:
+                    continue
+                based = (h - 1) - ((h - 1 - st) % iv)
+                off = h - based
+                if off > 3:
+                    continue
+                pl = plans.setdefault((f, based), {"mode": rng.choice(["split", "split", "split2", "one", "none", "ok", "late"]),
+                                                   "det": str(rng.randint(5, 90)), "sent": {}})
+
+                def msg(val, price, det, pl=pl, f=f):
+                    n = pl["sent"].get(val, 0) + 1
+                    pl["sent"][val] = n
+                    return {"k": "price", "key": val, "f": f, "p": str(price), "d": det, "n": n}
+                m = pl["mode"]
+                if m == "split" and off == 1:
+                    txs += [msg(x, 10 + i, pl["det"]) for i, x in enumerate(vals)]
+                elif m == "split2":
+                    if off == 1:
+                        txs += [msg(x, 10 + i, pl["det"]) for i, x in enumerate(vals)]
+                    elif off == 2:
+                        txs += [msg(x, 20 + i, str(int(pl["det"]) + 1)) for i, x in enumerate(vals[:2])]
+                elif m == "one" and off == 2:
+                    txs.append(msg(vals[f % 3], 7, pl["det"]))
+                elif m == "late" and off == 3:
+                    txs += [msg(x, 30 + i, pl["det"]) for i, x in enumerate(vals)]
+                elif m == "ok" and off == 2:
+                    txs += [msg(x, 5, pl["det"]) for x in vals]
+            if rng.random() < 0.3:
+                txs.append({"k": "send", "s": "s2", "o": "s3", "x": str(rng.randint(1, 10 ** 6))})
+            blocks.append({"dt": 1, "txs": txs})
+        out.append({"id": f"o-{seed}-{v}", "cfg": cfg, "blocks": blocks})
+    return out
+
+
 # ----------------------------------------------------------------------------------------------
 # execution of one script by independent processes
 
@@ -400,6 +454,8 @@ def _run(tier, seed, harness, d, only_scripts=None):
             scripts.append((sc, b, True))
         for sc in extra_scripts(seed, unb):
             scripts.append((sc, None, False))
+        for sc in oracle_scripts(seed, tier):
+            scripts.append((sc, None, False))
     else:
         K = 3
         unb = 1
@@ -409,7 +465,10 @@ def _run(tier, seed, harness, d, only_scripts=None):
     with concurrent.futures.ThreadPoolExecutor(max_workers=WORKERS) as ex:
         for sc, b, strict in scripts:
             exports, restarts = plan_script(sc, b, seed, tier)
-            jobs.append((sc, b, strict, ex.submit(execute_script, harness, d, sc, K, seed, exports, restarts)))
+            k = K
+            if sc["id"].startswith("o-"):      # oracle-only stress script: many cheap executions, no export
+                exports, restarts, k = [], restarts[:1], max(K, NORACLE if tier == "quick" else 2 * NORACLE)
+            jobs.append((sc, b, strict, ex.submit(execute_script, harness, d, sc, k, seed, exports, restarts)))
         results = [(sc, b, strict, f.result()) for sc, b, strict, f in jobs]
 
     counts = collections.Counter()
@@ -495,7 +554,7 @@ def _run(tier, seed, harness, d, only_scripts=None):
                            "first_obs": [{k: v for k, v in ln.items() if k in ("run", "role", "h", "prefix", "oks")} for ln in l0[2:6]]}]
     res["rule"] = ("behaviours = block scripts: TLC -simulate shapes of MC_Chain (per block: epoch end?, structural txs) concretised with "
                    "seed-chosen noise (deposits, delegations, withdrawals, sends, native delegations, associations, oracle rounds) plus "
-                   "hand-shaped downtime/evidence scripts; each script executed by K independent processes + restarted process + "
+                   "hand-shaped downtime/evidence/AVS scripts and oracle-only stress scripts (8 staggered feeders, executed by 12 processes); each script executed by K independent processes + restarted process + "
                    "exporting process + one fresh process per exported document; events = trace lines (one per executed block/export/import); "
                    "distinct_nontrivial = distinct (tx kind, code, precompile result) triples")
     return res
